@@ -75,3 +75,43 @@ func valueSemOracle(c *Ctx) {
 		}
 	}
 }
+
+// constants cannot be assigned, from any nesting depth of function literals and blocks, whatever their
+// initialiser: every such script is a compile error (C02: "constants and iota").
+var constAssignProgs = []string{
+	`const k = 1; k = 2; return k`,
+	`const k = [10][0]; k = 2; return k`,
+	`const k = 1; f := func() { k = 2 }; f(); return k`,
+	`const k = [10][0]; f := func() { k = 99 }; f(); return k`,
+	`const k = [10][0]; f := func() { return func() { k = 99 } }; f()(); return k`,
+	`const k = [10][0]; f := func() { return func() { return func() { k += 1 } } }; f()()(); return k`,
+	`const k = "s" + "t"; f := func() { return func() { k++ } }; f()(); return k`,
+	`const (a = iota; b); g := func() { if true { for i := 0; i < 1; i++ { f := func() { return func() { b = 5 } }; f()() } } }; g(); return b`,
+	`const k = [1][0]; f := func() { return func() { k, x := [1, 2]; return x } }; return [f()(), k]`,
+}
+
+func constAssignOracle(c *Ctx) {
+	for i, src := range constAssignProgs {
+		for _, noOpt := range []bool{true, false} {
+			c.dist["oracle:const-assign"]++
+			bc, err := ugo.Compile([]byte(src), ugo.CompilerOptions{NoOptimize: noOpt})
+			if err != nil {
+				continue
+			}
+			got := "?"
+			func() {
+				defer func() { _ = recover() }()
+				ret, rerr := ugo.NewVM(bc).SetRecover(true).Run(nil)
+				got = fmt.Sprint(ret, rerr)
+			}()
+			if i == len(constAssignProgs)-1 {
+				// `k, x := …` inside a function literal DECLARES new variables k and x there: legal
+				if got != "[2, 1] <nil>" {
+					c.Violation(PropViolation{"C02", "a destructuring define inside a function literal must declare new variables and leave the outer constant alone: got " + got, src, "C02:const-assign:shadowing-define"})
+				}
+				continue
+			}
+			c.Violation(PropViolation{"C02", fmt.Sprintf("a script that assigns to a constant compiles (NoOptimize=%v) and gives %s", noOpt, got), src, fmt.Sprintf("C02:const-assign:compiles:%d", i)})
+		}
+	}
+}
